@@ -8,7 +8,7 @@ checked against bit-level read/write sets computed from the IR alone.
 import itertools
 import sys
 
-from pymtl3 import Component, update, update_once, U, M, Wire, OutPort, InPort, Bits4, blocking, non_blocking, method_port
+from pymtl3 import Component, update, update_once, U, M, WR, Wire, OutPort, InPort, Bits4, blocking, non_blocking, method_port
 
 from vt import ir, irgen, irref
 from vt.acc import Acc, MachineryError
@@ -459,7 +459,44 @@ class FuncMethodCall(Component):
       s.log.append("up_rd"); s.got = s.r.rd()
 
 
+class _WProd(Component):
+  def construct(s, log):
+    s.in_ = InPort(Bits4)
+    s.out = OutPort(Bits4)
+
+    @update
+    def up_prod():
+      log.append("up_prod"); s.out @= s.in_ + 1
+
+
+class _WCons(Component):
+  def construct(s, log):
+    s.in_ = InPort(Bits4)
+    s.seen = OutPort(Bits4)
+
+    @update
+    def up_sample():
+      log.append("up_sample"); s.seen @= s.in_
+
+    s.add_constraints(U(up_sample) < WR(s.in_))        # sample the port BEFORE it is written in this evaluation
+
+
+class WrPortThroughNet(Component):
+  """an explicit inversion U(blk) < WR(port) on a port that is driven through a connection: the value reaches the port when the
+  block that writes the other end of the net runs, so that block has to come after blk"""
+  def construct(s):
+    s.log = []
+    s.in_ = InPort(Bits4)
+    s.seen = OutPort(Bits4)
+    s.p = _WProd(s.log)
+    s.c = _WCons(s.log)
+    s.p.in_ //= s.in_
+    s.c.in_ //= s.p.out
+    s.seen //= s.c.seen
+
+
 def handwritten_cases():
+  yield ("wrport", ())
   for n in (1, 2):
     yield ("once", (n,))
   for direct in (1, 0):
@@ -479,7 +516,7 @@ def build_hw(kind, args, group, chooser=None):
   from pymtl3.passes.mamba.PassGroups import UnrollSim, HeuTopoUnrollSim, Mamba2020
   from vt import seams
   import pymtl3.stdlib.queues.cl_queues as clq
-  top = FLDesign(*args) if kind == "fl" else (OnceNoMethods(*args) if kind == "once" else (FuncMethodCall(*args) if kind == "funcm" else CLCallers(getattr(clq, args[0]), args[1])))
+  top = WrPortThroughNet() if kind == "wrport" else FLDesign(*args) if kind == "fl" else (OnceNoMethods(*args) if kind == "once" else (FuncMethodCall(*args) if kind == "funcm" else CLCallers(getattr(clq, args[0]), args[1])))
   top.elaborate()
   with seams.shuffle_seam(chooser):
     if group == "default": top.apply(DefaultPassGroup())
@@ -495,6 +532,8 @@ def hw_required(kind, args):
     return [("up_prod", "up_cons0"), ("up_prod", "up_cons1"), ("up_first", "up_second")], 5
   if kind == "funcm":
     return [("up_wr", "up_rd")], 2
+  if kind == "wrport":
+    return [("up_sample", "up_prod")], 2
   if kind == "once":
     return [("up_once_a", "up_once_b" if args[0] == 2 else "up_plain")], 2
   q = args[0]
@@ -520,7 +559,7 @@ def check_hw(kind, args, acc, only_group=None, choices=None):
       top.sim_reset()
       for _ in range(3):
         top.log.clear()
-        top.sim_tick()
+        (top.sim_eval_combinational if kind == "wrport" else top.sim_tick)()      # wrport is pure RTL: sim_tick evaluates twice
         seq = list(top.log)
         out.append(tuple(seq))
         bad = None
